@@ -80,6 +80,26 @@ def run(c, a):
         rc, txt = c.go_test("proto/compat", HARNESS, "^TestVerifLegacyExport$", env={"VERIF_OUT": out}, timeout=300, name="export")
         if rc != 0 or not os.path.exists(out):
             raise Broken("legacy export failed: " + txt[-1500:])
+        # transparency on valid data for EVERY convertible root type: each failure path of the legacy struct graph realised with
+        # valid (non-ASCII) text, decoded by the codec and by the standard codec
+        vpaths = []
+
+        def on_vline(line):
+            try:
+                d = json.loads(line)
+                if isinstance(d, str):
+                    d = json.loads(d)
+            except ValueError:
+                return
+            vpaths.append(d)
+        rv = c.tlc("SchemaWalk", "SchemaWalk", "walk_fail.cfg", workers=8, timeout=900, line_cb=on_vline,
+                   files={"SchemaGen.tla": open(out).read()}, name="walk-fail")
+        if not rv.ok or len(vpaths) < 50:
+            raise Broken("failure-path exploration failed (%d paths)" % len(vpaths))
+        for d in vpaths:
+            for deep in ((False, True) if "cause" not in d["path"] else (False,)):
+                obligs.append({"id": len(obligs) + 1, "kind": "valid", "type": d["root"]["method"], "path": d["path"], "deep": deep, "wrap": True, "seq": 0})
+        extra["valid_paths"] = len(obligs)
         m = re.search(r'UnconvertibleSample == "([^"]*)"', open(out).read())
         unconv = m.group(1) if m else ""
         if not unconv:
@@ -134,7 +154,9 @@ def run(c, a):
     for g in OBS_RE.finditer(m.group(1)):
         rec = recs[int(g.group(1)) - 1]
         nv += 1
-        if rec["kind"] == "path":
+        if rec["kind"] == "valid":
+            sig = {"module": "Utf8", "clause": "nottransparent", "type": rec["type"].split(".")[-1]}
+        elif rec["kind"] == "path":
             sig = {"module": "Utf8", "clause": "unrepaired", "leafpath": "/".join(rec["path"][-3:])}
         else:
             sig = {"module": "Utf8", "clause": "class", "class": json.dumps(rec["class"], sort_keys=True)}
